@@ -2,12 +2,13 @@ SPECIFICATION VSpec
 CONSTANTS
   PipeSeq <- Pipes2
   Rcvs = {"r1"}
-  Procs = {"p1", "p2"}
+  Procs = {"p1"}
   Exps = {"e1"}
   Conns = {"ca1"}
   Support <- SupportDef
-  MaxSize = 5
+  MaxSize = 3
   ExtIds = {"x1"}
-  MaxDefects = 2
+  MaxDefects = 1
+  MaxKeys = 1
 INVARIANTS WalkSound
 CHECK_DEADLOCK FALSE
